@@ -3,6 +3,8 @@ pub mod c01;
 pub mod c03;
 pub mod c04;
 pub mod cone;
+pub mod ell;
+pub mod poly;
 pub mod c07;
 pub mod c10;
 pub mod c11;
@@ -25,6 +27,8 @@ pub fn lookup(id: &str) -> Option<Monitor> {
     "C08" => Some(c07::monitor_c08()),
     "C10" => Some(c10::monitor()),
     "C11" => Some(c11::monitor()),
+    "C12" => Some(poly::monitor()),
+    "C13" => Some(ell::monitor()),
     "C14" => Some(c14::monitor()),
     "C15" => Some(c15::monitor()),
     "C16" => Some(c16::monitor()),
